@@ -77,6 +77,7 @@ static int             hostname_has_domain;
 static int             serv_calls, serv_mode = -1;
 static char           *ntop_dst;
 static int             timeouts_sum;
+static int             expect_family = FAMILY, check_addr = 1;
 
 static size_t str_len(const char *s, size_t max) /* walks the string: reading past its object is a pointer-check failure */
 {
@@ -121,8 +122,7 @@ static void user_cb(void *arg, int status, int timeouts, char *node, char *servi
     sa2->sin_family = AF_INET;
     sa2->sin_port   = vp_u16();
     depth           = 1;
-    ares_getnameinfo(&ch, (struct sockaddr *)sa2, sizeof(*sa2), ARES_NI_LOOKUPHOST | (vp_bool() ? ARES_NI_LOOKUPSERVICE : 0),
-                     user_cb2, NULL);
+    ares_getnameinfo(&ch, (struct sockaddr *)sa2, sizeof(*sa2), ARES_NI_LOOKUPHOST, user_cb2, NULL);
     VP_ASSERT(cb2_count + pending2 == 1, "nested request: completed exactly once, or exactly one request pending");
     depth = 2;
     free(sa2);
@@ -163,23 +163,29 @@ void ares_gethostbyaddr_nolock(ares_channel_t *channel, const void *addr, int ad
   VP_ASSERT((family == AF_INET && addrlen == 4) || (family == AF_INET6 && addrlen == 16), "address length matches the family");
   for (i = 0; i < addrlen; i++) {
     unsigned char b = ((const unsigned char *)addr)[i]; /* inside the caller's object (pointer checks) */
-    if (!nested) VP_ASSERT(b == g_addr[i], "the address looked up is the one in the socket address");
+    if (!nested && check_addr) VP_ASSERT(b == g_addr[i], "the address looked up is the one in the socket address");
   }
-  if (!nested) {
-    VP_ASSERT(family == FAMILY, "the family looked up is the one of the socket address");
-    gha_calls++;
+  if (nested) { /* the request started by the callback: stays pending or is refused at once (its own life-cycle is the
+                   outer request's obligation in another run; here it only has to happen while the outer one completes) */
+    if (mode & 1) { pending2++; pending_arg2 = arg; }
+    else nameinfo_callback(arg, ARES_ECONNREFUSED, 0, NULL);
+    return;
   }
+  VP_ASSERT(family == expect_family, "the family looked up is the one of the socket address");
+  gha_calls++;
   if (mode == 0) { /* completes synchronously */
     int             st = (int)vp_range(0, 24);
     int             t  = (int)vp_range(0, 2);
     struct hostent *h  = st == ARES_SUCCESS ? make_hostent(family) : NULL;
-    if (!nested) { sync_completed = 1; g_host = h; timeouts_sum += t; }
+    sync_completed = 1;
+    g_host         = h;
+    timeouts_sum  += t;
     nameinfo_callback(arg, st, t, h);
     if (h != NULL) ares_free_hostent(h); /* as end_aquery does */
     return;
   }
-  if (nested) { pending2++; pending_arg2 = arg; }
-  else { pending++; pending_arg = arg; }
+  pending++;
+  pending_arg = arg;
 }
 
 const char *ares_inet_ntop(int af, const void *src, char *dst, ares_socklen_t size)
@@ -203,7 +209,7 @@ static int vp_getservbyport_r(int port, const char *proto, struct servent *se, c
     const char *want = (g_flags & ARES_NI_UDP) ? "udp" : (g_flags & ARES_NI_SCTP) ? "sctp" : (g_flags & ARES_NI_DCCP) ? "dccp" : "tcp";
     VP_ASSERT(!(g_flags & ARES_NI_NUMERICSERV), "no service database lookup with ARES_NI_NUMERICSERV");
     VP_ASSERT(proto[0] == want[0] && proto[1] == want[1], "protocol follows the flags");
-    VP_ASSERT((unsigned short)port == g_port, "the port looked up is the one in the socket address");
+    if (check_addr) VP_ASSERT((unsigned short)port == g_port, "the port looked up is the one in the socket address");
     serv_calls++;
     serv_mode = mode;
   }
@@ -337,23 +343,42 @@ void harness(void)
 #  endif
 #  ifdef BADSA
     {
-      unsigned short fam   = vp_u16();
-      ares_socklen_t salen = (ares_socklen_t)vp_range(0, SALEN);
-      unsigned int   flags = other_flag_bits() | (vp_bool() ? ARES_NI_LOOKUPHOST : 0) | (vp_bool() ? ARES_NI_LOOKUPSERVICE : 0) |
-                           (vp_bool() ? ARES_NI_NUMERICHOST : 0);
+      /* the caller's object is SALEN bytes; it may hold a shorter address family (a sockaddr_in inside a sockaddr_in6-sized
+         buffer is fine), sa_family and salen <= SALEN are arbitrary */
+      unsigned short   fam    = vp_u16();
+      ares_socklen_t   salen  = (ares_socklen_t)vp_range(0, SALEN);
       struct sockaddr *arg_sa = vp_bool() ? sa : NULL;
       int              ok;
       sa->sa_family = fam;
-      ok            = (arg_sa != NULL && fam == FAMILY && salen == SALEN);
-      g_flags       = flags | ((flags & (ARES_NI_LOOKUPHOST | ARES_NI_LOOKUPSERVICE)) ? 0 : ARES_NI_LOOKUPHOST);
-      ares_getnameinfo(&ch, arg_sa, salen, (int)flags, user_cb, &user_cb_count);
+      ok            = arg_sa != NULL && ((fam == AF_INET && salen >= (ares_socklen_t)sizeof(struct sockaddr_in)) ||
+                              (fam == AF_INET6 && salen >= (ares_socklen_t)sizeof(struct sockaddr_in6)));
+      expect_family = fam;
+      check_addr    = 0;
+      /* one call per flag class with constant flags (the validation under test comes before any flag is looked at) */
+      switch (vp_range(0, 2)) {
+        case 0:
+          g_flags = ARES_NI_LOOKUPSERVICE;
+          ares_getnameinfo(&ch, arg_sa, salen, ARES_NI_LOOKUPSERVICE, user_cb, &user_cb_count);
+          break;
+        case 1:
+          g_flags = ARES_NI_NUMERICHOST | ARES_NI_LOOKUPHOST | ARES_NI_LOOKUPSERVICE;
+          ares_getnameinfo(&ch, arg_sa, salen, ARES_NI_NUMERICHOST | ARES_NI_LOOKUPHOST | ARES_NI_LOOKUPSERVICE, user_cb, &user_cb_count);
+          break;
+        default:
+          g_flags = ARES_NI_LOOKUPHOST;
+          ares_getnameinfo(&ch, arg_sa, salen, 0, user_cb, &user_cb_count);
+          break;
+      }
       VP_ASSERT(user_cb_count + pending == 1, "after starting: completed exactly once, or exactly one request pending");
       if (!ok) {
         VP_ASSERT(user_cb_count == 1 && user_status == ARES_ENOTIMP && gha_calls == 0 && allocs_before_cb == 0,
                   "no / unsupported / too short socket address: ARES_ENOTIMP at once, nothing started");
         VP_WITNESS("failed before any send");
       } else {
+        if (g_flags == ARES_NI_LOOKUPHOST) VP_ASSERT(gha_calls == 1, "a full-size Internet socket address is accepted: host lookup started");
+        else VP_ASSERT(user_cb_count == 1 && user_status != ARES_ENOTIMP, "a full-size Internet socket address is accepted");
         VP_WITNESS("valid socket address");
+        if (FAM == 2 && fam == AF_INET) VP_WITNESS("IPv4 address in a larger object");
       }
     }
 #  else
